@@ -540,6 +540,9 @@ structure CodeReq where
   verifier : Option String
   clientId : Option String
   dpop : DPoPIn
+  /-- every other form parameter of the token request (scope, assertion, presentation_submission, resource, …):
+      `handleAccessTokenRequest` reads code, code_verifier and client_id only -/
+  extra : List (String × String) := []
 
 /-- `validatePKCEParams` with the stored challenge/method and the presented verifier -/
 def pkceOK (sha : String → String) (s : Session) (verifier : String) : Bool :=
